@@ -6,7 +6,7 @@
    The states are abstract (Layer A); that each of them is reached by complete pieces of list surgery —
    never in the middle of one — is the structure of panic_points itself: callbacks sit only between the
    primitives whose pointer-level correctness is C07 (B/RepB.v, B/ReallocB.v). *)
-Require Import LruV.A.PanicProps.
+Require Import LruV.A.PanicProps LruV.B.OpsProps.
 
 (* For every operation, every state satisfying the invariant, every oracle and EVERY callback point:
    current_size equals the sum of the recorded sizes and is within the limit, keys are distinct, every
@@ -35,6 +35,13 @@ Proof. intros s keep o pp Hin Hk. destruct (pred_point_state s keep o (ents s) [
 Theorem C16_clone : forall s pp, In pp (clone_pts s) -> pst pp = s /\ pdrop pp = [].
 Proof. exact clone_points_source. Qed.
 
+(* pointer level: the callbacks of an operation sit between complete list-surgery primitives (touch_ptr, removal,
+   insertion at the head, size update); between ANY two primitives of ANY valid sequence the structure satisfies the
+   representation invariant RI — so a panic in a callback never finds a half-linked list *)
+Theorem C16_between_primitives : forall g l, RI (gh g) (gseal g) (glist g) -> bprims_ok g l ->
+  forall pre post, l = pre ++ post -> exists gm, bprims_run g pre = Some gm /\ RI (gh gm) (gseal gm) (glist gm) /\ gseal gm = gseal g.
+Proof. exact between_primitives. Qed.
+
 (* non-vacuity: an insertion that replaces a key, evicts two entries and grows the table has 2 size points,
    1 + 2 + 1 hash points of lookups / evictions / ... and every one of them satisfies the statement *)
 Example C16_example :
@@ -50,3 +57,4 @@ Print Assumptions C16_all_points.
 Print Assumptions C16_closure.
 Print Assumptions C16_predicate.
 Print Assumptions C16_clone.
+Print Assumptions C16_between_primitives.
